@@ -6,7 +6,8 @@
 #include "stralloc.h"
 #include "getln.h"
 
-extern int ideal_getc(substdio *s);
+extern int ideal_next(substdio *s);          /* ideal_substdio.c: bytes buffered by substdio_feed first, then ideal_getc() */
+extern void ideal_ghost(substdio *s, int c);
 
 int getln(substdio *ss, stralloc *sa, int *match, int sep)
 {
@@ -14,8 +15,8 @@ int getln(substdio *ss, stralloc *sa, int *match, int sep)
   sa->len = 0;
   for (;;) {
     char ch;
-    int c = ideal_getc(ss);
-    ss->p = (c == -1) ? 0 : 1;      /* ghost of the read buffer, see ideal_substdio.c substdio_get */
+    int c = ideal_next(ss);
+    ideal_ghost(ss, c);             /* ghost of the read buffer, see ideal_substdio.c substdio_get */
     if (c == -2) return -1;
     if (c == -1) { *match = 0; return 0; }
     ch = (char) c;
@@ -44,8 +45,8 @@ int getln2(substdio *ss, stralloc *sa, char **cont, unsigned int *clen, int sep)
   if (!stralloc_ready(sa, 0)) return -1;
   sa->len = 0;
   for (;;) {
-    int c = ideal_getc(ss);
-    ss->p = (c == -1) ? 0 : 1;      /* ghost of the read buffer, see ideal_substdio.c substdio_get */
+    int c = ideal_next(ss);
+    ideal_ghost(ss, c);             /* ghost of the read buffer, see ideal_substdio.c substdio_get */
     if (c == -2) return -1;
     if (c == -1) break;
     if (n >= IDEAL_LINE_MAX) return -1;            /* harness sizing: treated as out of memory */
